@@ -1071,3 +1071,89 @@ def count_table_covers_bins(ctx: Ctx, fq: str = "cirkit.templates.region_graph.a
             seen.add(k)
             res.append(o)
     return res
+
+
+# ------------------------------------------------------------------------------------------ R14s
+TOPO_FUNCS = {"topological_ordering", "layerwise_topological_ordering"}
+
+
+def edge_multiplicity(ctx: Ctx) -> list[Ob]:
+    """R14s -- successor lists keep one entry per edge.
+
+    ``topological_ordering`` / ``layerwise_topological_ordering`` count the predecessors of a node
+    with multiplicity (``len(incomings_fn(n))``) and decrement once per entry of
+    ``outcomings_fn(child)``: the successor function has to list a successor once *per edge*.  A node
+    that uses another twice -- ``c * c`` has operands ``(c, c)``; a product layer can list one input
+    twice -- otherwise never becomes ready and the ordering stops early / reports a cycle.
+    (a) ``graph_nodes_outgoings`` appends once per occurrence (no membership guard, no set);
+    (b) every explicit ``outcomings_fn`` handed to an ordering function is a ``node_outputs`` method
+    or a lookup in a mapping built by ``graph_nodes_outgoings``; a successor function defined by a
+    membership test (``[m for m in nodes if n in incomings(m)]``) loses the multiplicity."""
+    out: list[Ob] = []
+    g = ctx.repo.func("cirkit.utils.algorithms.graph_nodes_outgoings")
+    guarded = False
+    uses_set = any(isinstance(n, (ast.Set, ast.SetComp)) or (isinstance(n, ast.Call) and isinstance(n.func, ast.Name) and n.func.id in ("set", "frozenset")) or (isinstance(n, ast.Call) and isinstance(n.func, ast.Attribute) and n.func.attr == "add") for n in ast.walk(g.node))
+    par: dict[int, ast.AST] = {}
+    for n in ast.walk(g.node):
+        for ch in ast.iter_child_nodes(n):
+            par[id(ch)] = n
+    appends = [n for n in ast.walk(g.node) if isinstance(n, ast.Call) and isinstance(n.func, ast.Attribute) and n.func.attr == "append"]
+    for a in appends:
+        cur: ast.AST | None = a
+        while cur is not None and cur is not g.node:
+            up = par.get(id(cur))
+            if isinstance(up, ast.If):
+                for c in ast.walk(up.test):
+                    # `n not in outgoings[ch]`: a guard on the *list*, not `ch in outgoings` (the key)
+                    if isinstance(c, ast.Compare) and any(isinstance(o, (ast.In, ast.NotIn)) for o in c.ops) and any(isinstance(x, ast.Subscript) for x in c.comparators):
+                        guarded = True
+            cur = up
+    if uses_set or guarded:
+        out.append(viol("R14s", g.qualname, "per-edge", "the successor lists are de-duplicated (a set / a membership guard before append): the orderings count predecessors with multiplicity, so a node using another twice (c * c) never becomes ready", g.loc))
+    elif appends:
+        out.append(ok("R14s", g.qualname, "per-edge", "one successor entry per occurrence among the predecessors", g.loc))
+    else:
+        out.append(unres("R14s", g.qualname, "per-edge", "no append in graph_nodes_outgoings (another formulation): no verdict", g.loc))
+    n_calls = 0
+    for f in ctx.repo.iter_functions():
+        if not f.module.name.startswith("cirkit"):
+            continue
+        ld = None
+        for c in walk_no_nested(f.node):
+            if not (isinstance(c, ast.Call) and (dotted(c.func) or "").split(".")[-1] in TOPO_FUNCS):
+                continue
+            if f.name in TOPO_FUNCS and f.module.name == "cirkit.utils.algorithms" and f.cls is None:
+                continue
+            oc = next((k.value for k in c.keywords if k.arg == "outcomings_fn"), c.args[2] if len(c.args) > 2 else None)
+            if oc is None:
+                continue
+            n_calls += 1
+            loc = f"{f.module.relpath}:{c.lineno}"
+            inst = f"outcomings:{unparse(oc)[:40]}"
+            if isinstance(oc, ast.Attribute) and oc.attr == "node_outputs":
+                out.append(ok("R14s", f.qualname, inst, "the graph's own node_outputs (built by graph_nodes_outgoings)", loc))
+                continue
+            body: ast.AST | None = None
+            if isinstance(oc, ast.Lambda):
+                body = oc.body
+            elif isinstance(oc, ast.Name):
+                for n in ast.walk(f.node):
+                    if isinstance(n, ast.FunctionDef) and n.name == oc.id:
+                        body = n
+                if body is None:
+                    ld = ld or LocalDefs(f.node)
+                    ds = [d for d in ld.defs.get(oc.id, []) if isinstance(d, ast.Lambda)]
+                    body = ds[0].body if len(ds) == 1 else None
+            if body is None:
+                out.append(unres("R14s", f.qualname, inst, "the successor function was not resolved: no verdict", loc))
+                continue
+            member = [x for x in ast.walk(body) if isinstance(x, ast.Compare) and any(isinstance(o, ast.In) for o in x.ops)]
+            dedup = [x for x in ast.walk(body) if isinstance(x, (ast.Set, ast.SetComp)) or (isinstance(x, ast.Call) and isinstance(x.func, ast.Name) and x.func.id in ("set", "frozenset"))]
+            if member or dedup:
+                out.append(viol("R14s", f.qualname, inst, f"the successor function is defined by a membership test / a set (`{unparse((member or dedup)[0])[:60]}`): a successor that uses the node twice (c * c has operands (c, c)) is listed once, while its predecessors are counted twice -- it never becomes ready and the ordering reports a cycle", loc))
+            elif any(isinstance(x, ast.Call) and isinstance(x.func, ast.Attribute) and x.func.attr == "get" for x in ast.walk(body)) or any(isinstance(x, ast.Subscript) for x in ast.walk(body)):
+                out.append(ok("R14s", f.qualname, inst, "a lookup in a successor mapping", loc))
+            else:
+                out.append(unres("R14s", f.qualname, inst, "the successor function is neither a mapping lookup nor a membership filter: no verdict", loc))
+    out.append(ok("R14s", "cirkit", "explicit-outcomings", f"{n_calls} ordering call(s) with an explicit successor function", "", nontrivial=False))
+    return out
